@@ -141,7 +141,7 @@ impl EventGen for Container {
                 // Special case <svg> elements with an xmlns attribute - passed through
                 // transparently, with no bbox calculation.
                 if new_el.name == "svg" && new_el.get_attr("xmlns").is_some() {
-                    return Ok((self.0.all_events(context).into(), None));
+                    return Ok((self.0.all_events(context).into_verbatim_output(), None));
                 }
                 new_el.eval_attributes(context)?;
                 if context.config.add_metadata {
